@@ -30,6 +30,9 @@ pub fn scenarios() -> Vec<Scenario> {
         Scenario { name: "d-mixed3", progs: vec![Prog::Hash("Jh256", 8), Prog::Hash("Skein512", 9), Prog::Cipher("XChaCha20", 10)], steps: 3 },
         Scenario { name: "e-mixed3b", progs: vec![Prog::Hash("Blake256", 11), Prog::Cipher("Ietf", 12), Prog::Hash("Groestl256", 13)], steps: 3 },
         Scenario { name: "f-2xSameHashSameMsgLen", progs: vec![Prog::Hash("Blake512", 14), Prog::Hash("Blake512", 15), Prog::Hash("Jh512", 16)], steps: 3 },
+        // instances of one hash family with different output sizes / state sizes (shared per-family statics)
+        Scenario { name: "g-SkeinSizes", progs: vec![Prog::Hash("Skein512/16", 17), Prog::Hash("Skein512", 18), Prog::Hash("Skein512/32", 19)], steps: 3 },
+        Scenario { name: "h-SkeinFamilies", progs: vec![Prog::Hash("Skein256/16", 20), Prog::Hash("Skein256", 21), Prog::Hash("Skein1024/16", 22), Prog::Hash("Skein1024", 23)], steps: 2 },
     ]
 }
 
@@ -51,6 +54,10 @@ fn new_hasher(name: &str) -> Box<dyn DynDigest> {
         "Skein256" => Box::new(skein_hash::Skein256::<U32>::default()),
         "Skein512" => Box::new(skein_hash::Skein512::<U64>::default()),
         "Skein1024" => Box::new(skein_hash::Skein1024::<U128>::default()),
+        "Skein512/16" => Box::new(skein_hash::Skein512::<digest::generic_array::typenum::U16>::default()),
+        "Skein512/32" => Box::new(skein_hash::Skein512::<U32>::default()),
+        "Skein256/16" => Box::new(skein_hash::Skein256::<digest::generic_array::typenum::U16>::default()),
+        "Skein1024/16" => Box::new(skein_hash::Skein1024::<digest::generic_array::typenum::U16>::default()),
         o => panic!("unknown hasher {}", o),
     }
 }
@@ -72,6 +79,10 @@ fn ref_digest(name: &str, msg: &[u8]) -> Vec<u8> {
         "Skein256" => KSkein256_32::ref_digest(msg),
         "Skein512" => KSkein512_64::ref_digest(msg),
         "Skein1024" => KSkein1024_128::ref_digest(msg),
+        "Skein512/16" => vref::skein::skein(64, msg, 16),
+        "Skein512/32" => vref::skein::skein(64, msg, 32),
+        "Skein256/16" => vref::skein::skein(32, msg, 16),
+        "Skein1024/16" => vref::skein::skein(128, msg, 16),
         o => panic!("unknown hasher {}", o),
     }
 }
@@ -237,31 +248,42 @@ pub fn child(scn: &str, schedule: &str, mode: &str) {
     }
 }
 
-/// child: free-running threads released by a barrier (sampling supplement)
-pub fn child_free(scn: &str, copies: usize) {
+/// child: free-running threads released by a barrier, each repeating its program (sampling
+/// supplement); prints "<results> <mismatches>"
+pub fn child_free(scn: &str, copies: usize, repeat: usize) {
     let sc = scenarios().into_iter().find(|s| s.name == scn).expect("scenario");
     let steps = sc.steps;
+    let want = Arc::new(expected(&sc)); // reference models only: touches no global of the crates under test
     let total = sc.progs.len() * copies;
     let barrier = Arc::new(std::sync::Barrier::new(total));
     let mut handles = Vec::new();
     for _ in 0..copies {
-        for p in sc.progs.iter() {
+        for (pi, p) in sc.progs.iter().enumerate() {
             let b = barrier.clone();
             let p = *p;
+            let want = want.clone();
             handles.push(std::thread::spawn(move || {
                 b.wait();
-                let mut th = Th::new(p);
-                let mut out = Vec::new();
-                for k in 0..steps {
-                    out.extend(th.step(k, steps));
+                let mut bad = 0usize;
+                for _ in 0..repeat {
+                    let mut th = Th::new(p);
+                    let mut out = Vec::new();
+                    for k in 0..steps {
+                        out.extend(th.step(k, steps));
+                    }
+                    if out != want[pi] {
+                        bad += 1;
+                    }
                 }
-                out
+                bad
             }));
         }
     }
+    let mut bad = 0;
     for h in handles {
-        println!("{}", vref::hex(&h.join().expect("thread panicked")));
+        bad += h.join().expect("thread panicked");
     }
+    println!("{} {}", total * repeat, bad);
 }
 
 /// all interleavings of n threads with `steps` calls each (multiset permutations), as digit strings
@@ -301,7 +323,7 @@ pub fn run(tier: &str, config: &str) -> Report {
     let exe = std::env::current_exe().unwrap();
     let scs = scenarios();
     let chosen: Vec<&Scenario> = scs.iter().collect();
-    rep.rule = "for each scenario (a: 3 threads Groestl256, b: 3 threads Groestl512, c: Groestl224+Groestl384+ChaCha20+Blake512 x 2 calls, d: Jh256+Skein512+XChaCha20, e: Blake256+Ietf+Groestl256, f: 2xBlake512+Jh512; calls = {new+first update / first keystream request, second update / request, finalize / seek+request}) every interleaving of the threads' calls (multinomial count) is executed in a cold subprocess, once with one OS thread per logical thread under a baton scheduler and once with a single OS thread (interleaving of independent instances); oracle: each thread's outputs equal the reference model (vref) = the solo outputs; thorough replays every schedule twice and requires identical observations".into();
+    rep.rule = "for each scenario (a: 3 threads Groestl256, b: 3 threads Groestl512, c: Groestl224+Groestl384+ChaCha20+Blake512 x 2 calls, d: Jh256+Skein512+XChaCha20, e: Blake256+Ietf+Groestl256, f: 2xBlake512+Jh512, g: Skein512 with 16/64/32-byte outputs, h: Skein256 and Skein1024 with two output sizes each x 2 calls; calls = {new+first update / first keystream request, second update / request, finalize / seek+request}) every interleaving of the threads' calls (multinomial count) is executed in a cold subprocess, once with one OS thread per logical thread under a baton scheduler and once with a single OS thread (interleaving of independent instances); oracle: each thread's outputs equal the reference model (vref) = the solo outputs; thorough replays every schedule twice and requires identical observations".into();
     let mut total_sched = 0u64;
     let mut distinct_out = std::collections::HashSet::new();
     let mut per = Vec::new();
@@ -348,26 +370,28 @@ pub fn run(tier: &str, config: &str) -> Report {
     }
     // sampling supplement: free-running threads, never counted as coverage
     let runs = if th { 200 } else { 40 };
-    let mut free_fail = 0;
-    for sc in scs.iter().take(4) {
-        let want: Vec<String> = expected(sc).iter().map(|v| vref::hex(v)).collect();
-        let copies = 8;
-        let res: Vec<Result<Vec<String>, String>> = (0..runs).into_par_iter().map(|_| run_child(&exe, &["c18-free", sc.name, &copies.to_string()])).collect();
+    let repeat = if th { 1000 } else { 300 };
+    let mut free_fail = 0u64;
+    let mut free_results = 0u64;
+    for sc in scs.iter() {
+        let copies = 4;
+        let res: Vec<Result<Vec<String>, String>> = (0..runs).into_par_iter().map(|_| run_child(&exe, &["c18-free", sc.name, &copies.to_string(), &repeat.to_string()])).collect();
         for r in res {
             match r {
                 Err(e) => { free_fail += 1; rep.violation(&format!("c18:{}:free-running:crash", sc.name), e, json!({"scenario": sc.name, "mode": "free-running"})); }
                 Ok(lines) => {
-                    for (i, l) in lines.iter().enumerate() {
-                        if l != &want[i % want.len()] {
-                            free_fail += 1;
-                            rep.violation(&format!("c18:{}:free-running:thread-differs", sc.name), format!("free-running thread {} produced a different result", i), json!({"scenario": sc.name, "mode": "free-running"}));
-                        }
+                    let f: Vec<u64> = lines.get(0).map(|l| l.split(' ').filter_map(|x| x.parse().ok()).collect()).unwrap_or_default();
+                    free_results += f.get(0).copied().unwrap_or(0);
+                    let bad = f.get(1).copied().unwrap_or(1);
+                    if bad != 0 {
+                        free_fail += bad;
+                        rep.violation(&format!("c18:{}:free-running:thread-differs", sc.name), format!("{} of {} results computed by free-running threads differ from the reference", bad, f.get(0).copied().unwrap_or(0)), json!({"scenario": sc.name, "mode": "free-running", "copies": copies, "repeat": repeat}));
                     }
                 }
             }
         }
     }
-    rep.set("sampled_supplement", json!({"kind": "SAMPLING (not coverage)", "cold_processes": runs * 4, "os_threads_each": "8 copies of every program, released by a barrier", "failures": free_fail}));
+    rep.set("sampled_supplement", json!({"kind": "SAMPLING (not coverage)", "cold_processes": runs * scs.len(), "os_threads_each": "4 copies of every program of the scenario, released by a barrier, each repeated", "repeat": repeat, "results_compared": free_results, "failures": free_fail}));
     rep.set("states", json!(total_sched));
     rep.set("transitions", json!(rep.evaluations));
     rep.set("traces_validated_against_impl", json!(total_sched));
